@@ -483,7 +483,7 @@ theorem filterMap_get_length {s : Store} {names : List Name} (h : ∀ nm ∈ nam
     rw [ih (fun x hx => h x (List.mem_cons_of_mem _ hx))]
 
 theorem names_sub_index (s : Store) : ∀ nm ∈ s.names, nm ∈ s.index :=
-  fun _ h => List.mem_of_mem_drop h
+  fun _ h => (List.mem_filter.mp h).1
 
 theorem filterMap_get_map {s : Store} {names : List Name} (h : ∀ nm ∈ names, nm ∈ s.index) :
     (names.filterMap s.get).map some = names.map s.get := by
